@@ -7,7 +7,7 @@ CONSTANTS
  MaxChunks = 3
  First = {}
  DevF3 = FALSE
- DevMolsPerFile = TRUE
+ DevMolsPerFile = FALSE
  DevDirKeep = FALSE
  DevElseKeep = FALSE
 CHECK_DEADLOCK FALSE
